@@ -307,8 +307,17 @@ impl<C: Cfg> World<C> {
     }
 
     /// clone() of slot v into slot w (replacing w's vector).
-    pub fn do_clone(&mut self, v: usize, w: usize, tr: &mut String) {
-        let _ = write!(tr, "v{} = v{}.clone()", w, v);
+    /// how: 0 = `clone()`; 1..=4 = `Clone::clone_from` into a fresh vector of the same backend that
+    /// holds 0 / 2 elements of the same type (1, 3) or of another type with the same layout (2, 4).
+    /// Whatever the route, the result must be indistinguishable from `clone()`.
+    pub fn do_clone(&mut self, v: usize, w: usize, how: u32, tr: &mut String) {
+        const HOW: [&str; 5] = ["clone()", "clone_from into empty vec", "clone_from into empty vec of another type", "clone_from into vec of 2", "clone_from into vec of 2 of another type"];
+        let how = how % 5;
+        if how == 0 {
+            let _ = write!(tr, "v{} = v{}.clone()", w, v);
+        } else {
+            let _ = write!(tr, "v{}: {} (v{})", w, HOW[how as usize], v);
+        }
         if !<C::Tr as TSet>::CLONEABLE {
             let _ = write!(tr, " [not cloneable: skipped]");
             return;
@@ -323,9 +332,46 @@ impl<C: Cfg> World<C> {
         let src = self.vecs[v].as_ref().unwrap();
         let src_ids: Vec<u32> = self.snapshot(v).iter().map(|s| s.id).collect();
         let before: Vec<u32> = if C::T::TRACKED && !C::T::ZST { reg(|r| src_ids.iter().map(|id| r.entries[*id as usize].cloned).collect()) } else { Vec::new() };
-        let r = call(|| <C::Tr as TSet>::clone_vec(src));
+        let mut old_ids: Vec<u32> = Vec::new();
+        let zst0 = reg(|r| r.zst_live);
+        let r = if how == 0 {
+            call(|| <C::Tr as TSet>::clone_vec(src))
+        } else {
+            let alt = how % 2 == 0;
+            let tag = self.next_tag;
+            self.next_tag += 1;
+            let fl = self.flav[v];
+            let b = C::M::builder(fl, tag);
+            let mut dst: V<C> = if alt { <C::Tr as TSet>::new_alt_in::<C::T, _>(b) } else { AnyVec::new_in::<C::T>(b) };
+            let k = if how >= 3 { fl.fixed_cap().unwrap_or(2).min(2) } else { 0 };
+            for _ in 0..k {
+                self.next_payload += 1;
+                let val = C::T::make(self.next_payload);
+                if C::T::TRACKED && !C::T::ZST {
+                    old_ids.push(val.id());
+                }
+                let pr = if alt {
+                    call(|| dst.downcast_mut::<crate::elem::Alt<C::T>>().unwrap().push(crate::elem::Alt(val)))
+                } else {
+                    call(|| dst.downcast_mut::<C::T>().unwrap().push(val))
+                };
+                if pr.is_err() {
+                    self.fail(MON_MODEL, "setup-push", "typed push while building a clone_from destination panicked");
+                    return;
+                }
+            }
+            self.class(if alt { "clone_from:other-type" } else { "clone_from" });
+            let src = self.vecs[v].as_ref().unwrap();
+            call(move || {
+                <C::Tr as TSet>::clone_from_vec(&mut dst, src);
+                dst
+            })
+        };
         // "works on every backend whenever the contents fit": the contents always fit the same backend
         self.expect_panic_m(MON_CLONE | MON_MODEL, "clone", &r, false, "");
+        if how != 0 {
+            self.nontrivial = true;
+        }
         if len > 0 {
             self.nontrivial = true;
         }
@@ -356,6 +402,20 @@ impl<C: Cfg> World<C> {
         if let Some(p) = problem {
             self.fail(MON_CLONE | MON_MODEL, "clone:shape", p);
             return;
+        }
+        // the former contents of a clone_from destination are destroyed, exactly once
+        if !old_ids.is_empty() {
+            let alive: Vec<u32> = reg(|r| old_ids.iter().copied().filter(|id| r.entries.get(*id as usize).map(|e| e.alive).unwrap_or(false)).collect());
+            if !alive.is_empty() {
+                self.fail(MON_CLONE | MON_MODEL | MON_OWN, "clone_from:old-elements", format!("clone_from left {} former element(s) of the destination alive (ids {:?})", alive.len(), alive));
+                return;
+            }
+        } else if how >= 3 && C::T::TRACKED && C::T::ZST {
+            let z1 = reg(|r| r.zst_live);
+            if z1 != zst0 + len as i64 {
+                self.fail(MON_CLONE | MON_MODEL | MON_OWN, "clone_from:old-elements", format!("clone_from of {} zero-sized elements into a vector of 2 changed the number of live values from {} to {}", len, zst0, z1));
+                return;
+            }
         }
         if C::T::TRACKED && !C::T::ZST {
             let after: Vec<u32> = reg(|r| src_ids.iter().map(|id| r.entries[*id as usize].cloned).collect());
